@@ -15,7 +15,7 @@ RULE = ("random programs p (full model); for each: reflexivity, equality with th
 ASSUMPTIONS = ["model-level 'meaning or declarations differ' = declarations with slice defaults made explicit, body meaning "
                "unexpanded, macro meanings with parameters named by position (unused parameter renames are equivalent mutants)"]
 TIERS = {"quick": {"shards": 8, "budget_s": 60}, "thorough": {"shards": 16, "budget_s": 420}}
-REQUIRE = {"programs-with-near-twin-statements": 300, "mutant-pairs-judged": 8000, "meaning-changing-mutants": 5000, "equivalent-mutants": 50, "layout-pairs": 300,
+REQUIRE = {"same-text-parsed-after-a-near-twin": 1500, "programs-with-near-twin-statements": 300, "mutant-pairs-judged": 8000, "meaning-changing-mutants": 5000, "equivalent-mutants": 50, "layout-pairs": 300,
            "roundtrip-pairs": 300, "independent-pairs": 300, "eq:Circuit:True": 100, "eq:Circuit:False": 1000,
            "eq:GateStatement:False": 100, "eq:BlockStatement:False": 100, "eq:LoopStatement:False": 20, "eq:Register:False": 20,
            "eq:Constant:False": 20, "eq:Macro:False": 20}
@@ -140,6 +140,47 @@ def judge_pair(pa, pb, relation):
         which = "declarations" if not M.tree_equal(va[0], vb[0]) else "body" if not M.tree_equal(va[1], vb[1]) else "macros"
         fails.append(("different-programs-compare-equal:" + which, {"a": ta, "b": tb, "diff": M.first_diff(va, vb)}))
     return "ok", fails, info
+
+
+def judge_same_text_two_gate_sets(pa, pb):
+    """Two parser-produced circuits of ONE text that compare equal have the same gate-level meaning, read through the
+    objects they hold: the first is parsed with the gate set every program of this process uses, right after a near twin
+    of the program (pb) was parsed with it; the second with a gate set of its own that no other text has seen."""
+    fails = []
+    from . import execcommon as X
+    from .. import gateset
+
+    ta, tb = sx.to_text(pa), sx.to_text(pb)
+    shared = X.native()
+    if lib.outcome(lib.parse, tb, shared)[0] != "ok":
+        return "skipped:b-rejected", fails, {}
+    o1 = lib.outcome(lib.parse, ta, shared)
+    o2 = lib.outcome(lib.parse, ta, gateset.make(variant="A"))
+    if o1[0] != "ok" or o2[0] != "ok":
+        if o1[0] != o2[0]:
+            fails.append(("acceptance-depends-on-what-was-parsed-before", {"shared gate set": str(o1[:3])[:150], "own gate set": str(o2[:3])[:150], "a": ta, "b": tb}))
+            return "ok", fails, {}
+        return "skipped:a-rejected", fails, {}
+    r = cmp(o1[1], o2[1])
+    if r[0] == "raise":
+        return "ok", [("eq-raises:" + r[1], {"error": r[2]})], {}
+    if not (r[1] and r[2]):
+        fails.append(("two-parses-of-one-text-unequal", {"a": ta, "parsed before": tb}))
+        return "ok", fails, {}
+    try:
+        k1, k2 = M.core_from_ir(o1[1]), M.core_from_ir(o2[1])
+        m1 = (M.meaning(k1, expand_macros=False), tuple(M.macro_meanings(k1).items()))
+        m2 = (M.meaning(k2, expand_macros=False), tuple(M.macro_meanings(k2).items()))
+        try:
+            f1, f2 = M.meaning(k1, expand_macros=True, env={}, resolve=True), M.meaning(k2, expand_macros=True, env={}, resolve=True)
+        except M.MeaningError:
+            f1 = f2 = None
+    except (M.OracleError, M.MeaningError):
+        return "skipped:no-meaning", fails, {}
+    if not M.tree_equal(m1, m2) or not M.tree_equal(f1, f2):
+        fails.append(("equal-circuits-differ-in-meaning:same-text-parsed-after-a-near-twin",
+                      {"a": ta, "parsed before": tb, "diff": M.first_diff(m1, m2) if not M.tree_equal(m1, m2) else M.first_diff(f1, f2)}))
+    return "ok", fails, {"twin": 1}
 
 
 # ---------------------------------------------------------------------------------------
@@ -317,6 +358,22 @@ def shard(ctx):
             process_pair(ctx, prog, m, "mutant", cls)
         if i <= 2:
             rec.sample({"program": sx.to_text(prog), "mutants": [(c, sx.to_text(m)) for c, m in ms[:3]]})
+    # programs over the native gate set, each parsed right after a near twin (one alias bound / index / argument changed)
+    j = 0
+    while j < ctx.scale(1500, 15000) and not rec.expired():
+        j += 1
+        g = gen.ExecGen(rng, max_depth=rng.choice([1, 2]), n_macros=(0, 2), n_lets=(0, 2), n_maps=(1, 4), body_len=(1, 3))
+        prog = g.program()
+        ms = [(c_, m) for c_, m in mutants(prog, rng) if m != prog and sx.legal_nesting(m)]
+        for cls, m in rng.sample(ms, min(4, len(ms))):
+            st, fails, info = judge_same_text_two_gate_sets(prog, m)
+            rec.case([prog, m, "same-text"], nontrivial=True)
+            if st != "ok":
+                rec.count(st)
+                continue
+            rec.count("same-text-parsed-after-a-near-twin")
+            for clause, detail in fails:
+                rec.violation(sig("C20", clause), detail, {"a": prog, "b": m, "relation": "same-text", "cls": cls})
     for k, v in EQ_COUNTS.items():
         rec.counters[k] = v
     monitors.report_contracts(rec)
@@ -327,6 +384,9 @@ def replay(ctx, case):
     pb = case["b"]
     if isinstance(pb, list):
         pb = sx.unnorm(pb)
-    st, fails, info = judge_pair(pa, pb, case["relation"])
+    if case["relation"] == "same-text":
+        st, fails, info = judge_same_text_two_gate_sets(pa, pb)
+    else:
+        st, fails, info = judge_pair(pa, pb, case["relation"])
     for clause, detail in fails:
         ctx.rec.violation(sig("C20", clause + ((":" + case["cls"]) if case.get("cls") else "")), detail, case)
